@@ -77,6 +77,16 @@ func coinP(denom string, amt *big.Int) *sdk.Coin { c := coin(denom, amt); return
 
 // ---- selection helpers -------------------------------------------------
 
+// otherOrSelf: another account, or (rarely) the account itself under another valid spelling of
+// its address - what string-level "must differ" validations let through.
+func (g *Gen) otherOrSelf(a *Actor) string {
+	if g.R.Chance(0.05) {
+		g.W.Probe("counterparty_is_self_spelled_upper_case")
+		return strings.ToUpper(a.Addr)
+	}
+	return g.otherUser(a).Addr
+}
+
 func (g *Gen) anyClass(v *Snapshot) *basev1.Class {
 	if len(v.Classes) == 0 {
 		return nil
@@ -389,7 +399,7 @@ func init() {
 		return &basetypes.MsgSealBatch{Issuer: a.Addr, BatchDenom: b.Denom}
 	})
 	regKind("Send", false, func(g *Gen, a *Actor, v *Snapshot, mode int) sdk.Msg {
-		m := &basetypes.MsgSend{Sender: a.Addr, Recipient: g.otherUser(a).Addr}
+		m := &basetypes.MsgSend{Sender: a.Addr, Recipient: g.otherOrSelf(a)}
 		if mode == ModeNearMiss && g.R.Chance(0.2) {
 			m.Recipient = a.Addr
 		}
@@ -455,7 +465,7 @@ func init() {
 		if c == nil {
 			return nil
 		}
-		return &basetypes.MsgUpdateClassAdmin{Admin: a.Addr, ClassId: c.Id, NewAdmin: g.otherUser(a).Addr}
+		return &basetypes.MsgUpdateClassAdmin{Admin: a.Addr, ClassId: c.Id, NewAdmin: g.otherOrSelf(a)}
 	})
 	regKind("UpdClassIssuers", false, func(g *Gen, a *Actor, v *Snapshot, mode int) sdk.Msg {
 		c := g.classAdminOf(v, a)
@@ -500,7 +510,7 @@ func init() {
 		if p == nil {
 			return nil
 		}
-		return &basetypes.MsgUpdateProjectAdmin{Admin: a.Addr, ProjectId: p.Id, NewAdmin: g.otherUser(a).Addr}
+		return &basetypes.MsgUpdateProjectAdmin{Admin: a.Addr, ProjectId: p.Id, NewAdmin: g.otherOrSelf(a)}
 	})
 	regKind("UpdProjMeta", false, func(g *Gen, a *Actor, v *Snapshot, mode int) sdk.Msg {
 		p := g.projectAdminOf(v, a)
@@ -819,7 +829,7 @@ func init() {
 			return nil
 		}
 		bk := cands[g.R.Intn(len(cands))]
-		return &baskettypes.MsgUpdateCurator{Curator: a.Addr, Denom: bk.BasketDenom, NewCurator: g.otherUser(a).Addr}
+		return &baskettypes.MsgUpdateCurator{Curator: a.Addr, Denom: bk.BasketDenom, NewCurator: g.otherOrSelf(a)}
 	})
 	regKind("UpdBasketFee", true, func(g *Gen, a *Actor, v *Snapshot, mode int) sdk.Msg {
 		m := &baskettypes.MsgUpdateBasketFee{Authority: auth(a)}
@@ -1008,12 +1018,19 @@ func init() {
 	regKind("SendFromFeePool", true, func(g *Gen, a *Actor, v *Snapshot, mode int) sdk.Msg {
 		pool := AddrStr(feePoolAddr())
 		d := Pick(g.R, workDenoms)
+		if held := sortedKeys(v.Bank[pool]); len(held) > 0 && g.R.Chance(0.8) {
+			d = held[g.R.Intn(len(held))] // what the pool actually holds
+		}
 		bal := v.BankBal(pool, d)
 		amt := g.intLE(bal)
 		if mode == ModeNearMiss {
 			amt = new(big.Int).Add(bal, big.NewInt(1))
 		}
-		return &markettypes.MsgGovSendFromFeePool{Authority: auth(a), Recipient: g.user().Addr, Coins: sdk.Coins{coin(d, amt)}}
+		rcpt := g.user().Addr
+		if g.R.Chance(0.5) {
+			rcpt = a.Addr // the sender pays itself (a user doing so is the obvious theft attempt)
+		}
+		return &markettypes.MsgGovSendFromFeePool{Authority: auth(a), Recipient: rcpt, Coins: sdk.Coins{coin(d, amt)}}
 	})
 
 	// ---- bank ----
@@ -1032,7 +1049,7 @@ func init() {
 		if mode == ModeNearMiss {
 			amt = new(big.Int).Add(bal, big.NewInt(1))
 		}
-		return &banktypes.MsgSend{FromAddress: a.Addr, ToAddress: g.otherUser(a).Addr, Amount: sdk.Coins{coin(d, amt)}}
+		return &banktypes.MsgSend{FromAddress: a.Addr, ToAddress: g.otherOrSelf(a), Amount: sdk.Coins{coin(d, amt)}}
 	})
 
 	// ---- data ----
@@ -1056,6 +1073,10 @@ func init() {
 				"https://[2001:db8::1]:9090/", "https://xn--bcher-kva.example/ä", "mailto:registry@example.org", "https://127.0.0.1", "/", "a:b", "https://foo.bar/" + strings.Repeat("seg/", g.R.Range(20, 300)),
 				"https://foo.bar/?u=" + fmt.Sprint(g.next())})
 		}
+		if len(v.Resolvers) > 0 && g.R.Chance(0.3) {
+			// the URL of an existing resolver: several resolvers (public and managed) may share one URL
+			url = v.Resolvers[g.R.Intn(len(v.Resolvers))].Url
+		}
 		if mode != ModeValid && g.R.Chance(0.4) {
 			url = Pick(g.R, []string{"", "foo", "://", "ftp//x"})
 		}
@@ -1065,7 +1086,7 @@ func init() {
 		var id uint64
 		var cands []uint64
 		for _, r := range v.Resolvers {
-			if len(r.Manager) == 0 || AddrStr(r.Manager) == a.Addr || mode != ModeValid {
+			if len(r.Manager) == 0 || AddrStr(r.Manager) == a.Addr || mode != ModeValid || g.R.Chance(0.15) {
 				cands = append(cands, r.Id)
 			}
 		}
